@@ -31,6 +31,24 @@ func (fr *frame) goStmt(x *ssa.Go) {
 			continue
 		}
 		p := fr.asPtr(b, fv.fn.FreeVars[i].Type())
+		hdr, contents := freeVarWrites(fv.fn.FreeVars[i])
+		if !hdr {
+			// the goroutine never assigns the captured variable itself
+			if sl, ok := pt.Elem().Underlying().(*types.Slice); ok && contents {
+				// ... but may write elements of the slice it holds
+				cur := u.loadPtr(p, fr.st)
+				k := u.keyM(sl.Elem())
+				arr := u.declConst(fr.tag("gohv_elems"), fmt.Sprintf("(Array %s %s)", u.mode.idxSort(), u.sortOf(sl.Elem())))
+				fr.st.setAt(k, fmt.Sprintf("(store %s (s_ref %s) %s)", fr.st.get(u, k), cur, arr), "(s_ref "+cur+")")
+				if ti := u.typeInvariant("(select "+arr+" i!g)", sl.Elem(), 0); ti != "" {
+					u.assert(fmt.Sprintf("(forall ((i!g %s)) (! %s :pattern ((select %s i!g))))", u.mode.idxSort(), ti, arr))
+				}
+				continue
+			}
+			if !contents {
+				continue
+			}
+		}
 		c := u.declConst(fr.tag("gohv"), u.sortOf(pt.Elem()))
 		if ti := u.typeInvariant(c, pt.Elem(), 0); ti != "" {
 			u.assert(ti)
@@ -149,6 +167,13 @@ func (fr *frame) runDeferStack(x *ssa.RunDefers) {
 				fr.callFunction(deferVal{d.call}, d.fnv.fn, d.args, d.fnv.binds, d.call)
 				return
 			}
+			if d.fnv.t != "" || d.fnv.typ != nil {
+				if cv, ok := d.call.Call.Value.(ssa.Value); ok {
+					_ = cv
+					fr.dynamicCallVals(deferVal{d.call}, &d.call.Call, d.fnv, d.args)
+					return
+				}
+			}
 			fr.havocAll("deferred call through an unknown function value")
 		}()
 		// merge: the call happened only if its defer was executed
@@ -172,3 +197,39 @@ func (d deferVal) Type() types.Type {
 	return d.Defer.Call.Signature().Results()
 }
 func (d deferVal) Referrers() *[]ssa.Instruction { return nil }
+
+// freeVarWrites inspects a goroutine closure: does it assign the captured variable itself
+// (hdr), and may it write through it / pass it on (contents)?
+func freeVarWrites(fv *ssa.FreeVar) (hdr, contents bool) {
+	refs := fv.Referrers()
+	if refs == nil {
+		return true, true
+	}
+	for _, r := range *refs {
+		switch x := r.(type) {
+		case *ssa.DebugRef:
+		case *ssa.Store:
+			if x.Addr == fv {
+				hdr = true
+			} else {
+				hdr, contents = true, true
+			}
+		case *ssa.UnOp:
+			// a load of the variable: what happens to the loaded value?
+			if lr := x.Referrers(); lr != nil {
+				for _, u := range *lr {
+					switch u.(type) {
+					case *ssa.DebugRef:
+					case *ssa.IndexAddr, *ssa.Call, *ssa.Slice, *ssa.MapUpdate, *ssa.FieldAddr, *ssa.Store, *ssa.MakeClosure, *ssa.Go, *ssa.Defer:
+						contents = true
+					}
+				}
+			}
+		case *ssa.MakeClosure, *ssa.Call, *ssa.Go, *ssa.Defer:
+			hdr, contents = true, true
+		default:
+			hdr, contents = true, true
+		}
+	}
+	return
+}
